@@ -279,7 +279,7 @@ Definition view_C13 (c : ctx) (items : list item) : view :=
   | InMod _ name _ _ _, Some (GMod _ _ _ _ tr _ uv tree) =>
       match fn_attr_of c with
       | Some a =>
-          decided (toks_eqb (t_vis tr) (match fa_vis a with [] => [TId "pub"; TG Paren [TId "super"]] | v => v end) &&
+          decided (toks_eqb (t_vis tr) (module_vis (fa_vis a)) &&
                    toks_eqb uv (fa_vis a) &&
                    toks_eqb tree ([TId name] ++ path_sep ++ [TId (fa_trait a)]) && String.eqb (t_name tr) (fa_trait a))
                   [t_vis tr; uv; tree]
